@@ -813,6 +813,10 @@ class GateSuite(SystemSuite):
             return f"the rhythm was initialised for {inits[-1][2]} bells, the tower has {n}"
         return None
 
+    def oracle_C19(self, case, out):
+        """a selection is applied exactly at the next Look to that can ring it (server-mode cases)"""
+        return self.oracle_C17(case, out) if case["oracle"]["server"] and "trace" in out else None
+
     def oracle_C03(self, case, out):
         """covers: bells beyond the generator's rows keep the same last places in every row"""
         return self.oracle_C17(case, out) if "trace" in out else None
@@ -1189,4 +1193,188 @@ class WaitSuite(SystemSuite):
     def oracle_C10(self, case, out):
         if "trace" in out and out["outcome"][0] == "crashed":
             return f"main loop died: {out['outcome'][1:3]}"
+        return None
+
+
+# ============================================================================= C19: server mode
+def moved_bells(rows):
+    """how many bells (counted from the front) ever change place in these rows: the stage being rung"""
+    top = 0
+    for a, b in zip(rows, rows[1:]):
+        for i, (x, y) in enumerate(zip(a, b)):
+            if x != y:
+                top = max(top, i + 1)
+    return top
+
+
+class ServerSuite(SystemSuite):
+    """Wheatley as Ringing Room runs it: place-holder generator, selections and settings over the
+    socket, stop-touch, roll call, the 300 s inactivity exit."""
+    name = "server_mode"
+    fuel = 90000
+    coq_cap = {"quick": 60, "thorough": 500}
+
+    def session(self, rng):
+        n = rng.choice([6, 8, 8, 10])
+        dur = Fraction(1, 8)
+        evs = [ev(0, "global", [True] * n), ev(Fraction(11, 1000), "user_entered", 1, "Wheatley")]
+        for b in range(1, n + 1):
+            evs.append(ev(Fraction(12, 1000) + Fraction(b, 100000), "assign", b, 1))
+        t = Fraction(101, 1000)
+        plan = []          # what the oracle needs: per touch, the selection history before its Look to
+        selections = []    # (time, stage, fits)
+        mode = rng.choice(["selection", "selection", "stop", "idle", "malformed"])
+        stages = [s for s in (4, 6, 8, 10, 12) ]
+        touches = rng.randint(1, 3)
+        queued = None
+        for k in range(touches):
+            # selections before this touch (the last one counts); sometimes a malformed one in between
+            for _ in range(rng.randint(0 if k else 1, 2)):
+                s = rng.choice(stages)
+                evs.append(ev(t, "row_gen", {"type": "method", "stage": s, "notation": "x1"}))
+                selections.append((t, s))
+                t += Fraction(3, 100)
+                if mode == "malformed" and rng.random() < 0.7:
+                    bad = rng.choice([{}, {"type": "nothing"}, {"type": "method", "notation": "x1"},
+                                      {"type": "method", "stage": "six", "notation": "x1"},
+                                      {"type": "method", "stage": 6}, {"type": "method", "stage": 6, "notation": "x1", "bob": 5},
+                                      {"type": "method", "stage": 6, "notation": "x1", "bob": {"a": "14"}},
+                                      {"type": "method", "stage": 6, "notation": "xz"}, {"type": "composition"},
+                                      {"type": "method", "stage": None, "notation": "x1"}])
+                    evs.append(ev(t, "row_gen", bad))
+                    t += Fraction(3, 100)
+            look = t + Fraction(1, 1000)
+            evs.append(ev(look, "call", "Look to"))
+            sch = Schedule(look, dur)
+            nrows = rng.choice([4, 6])
+            touch = {"look": fstr(look), "n": n}
+            if mode == "selection" and rng.random() < 0.7:     # a selection in the middle of the touch
+                s = rng.choice(stages)
+                tm = sch.wait(rng.randrange(n, (nrows - 1) * n), Fraction(rng.randint(5, 90), 97))
+                evs.append(ev(tm, "row_gen", {"type": "method", "stage": s, "notation": "x1"}))
+                selections.append((tm, s))
+            if mode == "stop":
+                j = rng.randrange(2 * n, (nrows - 1) * n)
+                ts = sch.wait(j, Fraction(rng.randint(5, 90), 97)) if rng.random() < 0.7 else sch.pause(j, Fraction(rng.randint(20, 80), 97))
+                evs.append(ev(ts, "stop_touch"))
+                touch["stop"] = fstr(ts)
+                t = ts + Fraction(1, 2)
+            else:
+                # stop-at-rounds is on in server mode: x1 on s bells comes round after 2s rows; ask to stand anyway
+                evs.append(ev(sch.wait((nrows - 2) * n + 1, Fraction(1, 3)), "call", "Stand next"))
+                t = sch.end_of(nrows * n) + Fraction(1, 2)
+            if rng.random() < 0.3:
+                key, val = rng.choice([("use_up_down_in", rng.choice([True, "false", "maybe", 1])),
+                                       ("stop_at_rounds", rng.choice(["True", False, None])),
+                                       ("call_composition", rng.choice(["true", 0])),
+                                       ("inertia", rng.choice([0.5, "1", "abc", 2, -1])),
+                                       ("sensitivity", 0.3), ("volume", 11)])
+                evs.append(ev(t - Fraction(1, 10), "setting", [[key, val]]))
+            plan.append(touch)
+        idle = None
+        if mode == "idle":
+            idle = rng.choice([Fraction(29990, 100), Fraction(30040, 100), Fraction(31000, 100)])
+            if rng.random() < 0.5:        # something happens just before / after the deadline
+                evs.append(ev(t + rng.choice([Fraction(29950, 100), Fraction(30030, 100)]), "call", "Bob"))
+            horizon = t + idle
+        else:
+            horizon = t + Fraction(1, 2)
+        # keep every event off the 10 ms polling grid of the idle loop
+        evs = [[fstr(Fraction(tt) + (Fraction(rng.randint(1, 999), 10 ** 6) if e[0] not in ("global",) else 0)), e]
+               for tt, e in evs]
+        for tc in plan:
+            for kk in ("look", "stop"):
+                if kk in tc:
+                    match = [tt for tt, e in evs if abs(Fraction(tt) - Fraction(tc[kk])) < Fraction(1, 1000)
+                             and e[0] in ("call", "stop_touch") and (e[0] == "stop_touch") == (kk == "stop")]
+                    tc[kk] = match[0]
+        selections = [(Fraction(tt), e[1]["stage"]) for tt, e in evs
+                      if e[0] == "row_gen" and e[1].get("type") == "method" and isinstance(e[1].get("stage"), int)
+                      and e[1].get("notation") == "x1" and set(e[1]) == {"type", "stage", "notation"}]
+        sc = {"gen": {"kind": "placeholder"}, "udi": True, "stop_at_rounds": True, "call_comps": True,
+              "name": "Wheatley", "instance": rng.randint(1, 99),
+              "rhythm": {"kind": "scripted", "durs": [fstr(dur)] * 600}, "delta": fstr(rng.choice([0, Fraction(1, 1000)])),
+              "horizon": fstr(horizon + Fraction(1, 3000)), "events": sorted_events(evs),
+              "oracle": {"n": n, "touches": plan, "selections": [[fstr(a), b] for a, b in selections], "mode": mode,
+                         "idle_from": fstr(t)}}
+        if mode == "idle":
+            # 30 000 idle polls: whether poll 30 000 or 30 001 crosses `last + 300` is decided by double rounding
+            # (a knife edge the model would skip anyway), so these sessions are judged by the oracle only
+            sc["oracle_only"] = True
+        return sc
+
+    def scenarios(self, rng, tier):
+        for _ in range(200 if tier == "quick" else 2000):
+            yield self.session(rng)
+
+    def to_coq(self, case, out):
+        c = {k: v for k, v in case.items() if k not in ("oracle", "oracle_only")}
+        return scenario_coq(c, out, self.fuel, self.tol, self.min_margin)
+
+    def run_impl(self, case):
+        c = {k: v for k, v in case.items() if k not in ("oracle", "oracle_only")}
+        return sim.run_scenario(c, gens.build_impl_generator)
+
+    def oracle_C19(self, case, out):
+        if "trace" not in out:
+            return None
+        orc = case["oracle"]
+        n = orc["n"]
+        sel = [(Fraction(t), s) for t, s in orc["selections"]]
+        all_rows = rows_rung(out)
+        looks = [Fraction(tc["look"]) for tc in orc["touches"]]
+        current = None       # stage of the generator that has been rung last
+        queued = None
+        for k, tc in enumerate(orc["touches"]):
+            look = looks[k]
+            nxt = looks[k + 1] if k + 1 < len(looks) else Fraction(10 ** 9)
+            rows = [(r, b, t) for (r, b, t) in all_rows if look <= t < nxt and len(b) == n]
+            pending = [s for (t, s) in sel if t < look and (k == 0 or t >= looks[k - 1])]
+            # a selection waits (queued) until a Look to can ring it; later selections replace it
+            if pending:
+                queued = pending[-1]
+            want = queued if queued is not None else current
+            if want is None or want > n:
+                if rows:
+                    return f"touch {k}: rang although the selected method needs {want} bells and the tower has {n}"
+                continue
+            queued = None
+            if not rows:
+                return f"touch {k}: the selection (stage {want}) was not rung at the Look to that followed it"
+            method_rows = [b for (r, b, _t) in rows if r >= 2]
+            got = moved_bells(method_rows)
+            if len(method_rows) >= 3 and got != want:
+                return (f"touch {k}: the rows rung are on {got} bells, but the selection in force at Look to was stage "
+                        f"{want} (selections {orc['selections']})")
+            current = want
+            if "stop" in tc:
+                ts = Fraction(tc["stop"])
+                late = [s for s in strikes(out) if ts < s[0] < nxt]
+                if len(late) > 1:
+                    return f"touch {k}: {len(late)} strikes went out after Stop touch"
+                flags = [it for it in out["trace"] if it[1] == "is_ringing" and Fraction(it[0]) == ts and it[2] is False]
+                if not flags:
+                    return f"touch {k}: is_ringing=false was not sent when Stop touch arrived"
+        # roll call exactly once per touch that started, right after is_ringing=true
+        tr = out["trace"]
+        for i, it in enumerate(tr):
+            if it[1] == "roll_call":
+                if i == 0 or tr[i - 1][1] != "is_ringing" or tr[i - 1][2] is not True:
+                    return "a roll call was answered without ringing having started"
+                if it[2] != case["instance"]:
+                    return "roll call carried the wrong instance id"
+        started = sum(1 for it in tr if it[1] == "is_ringing" and it[2] is True)
+        if sum(1 for it in tr if it[1] == "roll_call") != started:
+            return "roll calls and touches started do not match"
+        # inactivity exit
+        if out["outcome"][0] == "exited":
+            end = Fraction(out["end"])
+            idle_from = max([Fraction(it[0]) for it in tr if it[1] == "is_ringing" and it[2] is False] or [D01])
+            if not (idle_from + 300 < end <= idle_from + 300 + Fraction(5, 100)):
+                return f"exited after {float(end - idle_from):.2f}s of inactivity"
+        elif orc["mode"] == "idle":
+            end = Fraction(case["horizon"])
+            idle_from = max([Fraction(it[0]) for it in tr if it[1] == "is_ringing" and it[2] is False] or [D01])
+            if end > idle_from + 300 + Fraction(5, 100):
+                return f"still running {float(end - idle_from):.2f}s after ringing stopped"
         return None
